@@ -264,6 +264,32 @@ def abstract_result(fn, *args):
     return fn(*args)
 
 
+class DeductiveOnly(Exception):
+    """The clause speaks about ghost state that only the verifier keeps (the log of calls)."""
+
+
+def calls_since(iter, fn):
+    """How many times `fn` (a function under contract) has been called by the verified activation
+    since the start of the current loop iteration (`iter`; None: since its start).  Ghost state:
+    deductive only."""
+    raise DeductiveOnly('calls_since')
+
+
+def call_result(iter, fn, k):
+    """What the k-th (0-based) of those calls returned."""
+    raise DeductiveOnly('call_result')
+
+
+def call_arg(iter, fn, k, name):
+    """The argument `name` of the k-th of those calls (as it was when the call was made)."""
+    raise DeductiveOnly('call_arg')
+
+
+def last_call_raised(iter, fn):
+    """The most recent of those calls did not return (it raised)."""
+    raise DeductiveOnly('last_call_raised')
+
+
 def text_len(s):
     return len(s)
 
